@@ -56,6 +56,52 @@ SYN = (
 )
 
 
+def comp_nest_programs():
+    """G-nest: every comprehension kind x every comprehension kind nested in every position of the outer one (first iterable - directly,
+    parenthesised, inside a call - element, condition, later iterable, target subscript), in every kind of enclosing scope. The first
+    iterable of the first generator is the only part that belongs to the enclosing scope; a nested comprehension there is itself one
+    scope up, recursively."""
+
+    def comp(kind, elt, gens):
+        return {'L': f'[{elt} {gens}]', 'S': f'{{{elt} {gens}}}', 'D': f'{{{elt}: w2 {gens}}}', 'G': f'({elt} {gens})'}[kind]
+
+    exprs = []
+
+    for ok in 'LSDG':
+        for ik in 'LSDG':
+            inner = comp(ik, 'k', 'for k, v in z if c1')
+            exprs.append(comp(ok, 'x', f'for x in {inner}'))
+            exprs.append(comp(ok, 'x', f'for x in ({inner})'))
+            exprs.append(comp(ok, 'x', f'for x in f({inner}, w)'))
+            exprs.append(comp(ok, 'x', f'for x in {inner}.items()'))
+            exprs.append(comp(ok, inner, 'for x in y'))
+            exprs.append(comp(ok, 'x', f'for x in y if {inner}'))
+            exprs.append(comp(ok, 'x', f'for x in y for u in {inner}'))
+            exprs.append(comp(ok, 'x', f'for t[{inner}] in y'))
+            exprs.append(comp(ok, 'x', 'for x in ' + comp(ik, 'k', 'for k in ' + comp(ok, 'j', 'for j in z2'))))
+
+    out = []
+
+    for i in range(0, len(exprs), 4):
+        a, b, c, d = (exprs + exprs[:3])[i : i + 4]
+        out.append(f'def f(z, y=0):\n  return {a}')
+        out.append(f'r = {b}')
+        out.append(f'class C:\n  y = 1\n  r = {c}\n  def m(self, z): return {a}')
+        out.append(f'l = lambda z: {d}')
+        out.append(f'def g(z):\n  def h(): return {b}\n  return [h for _ in {c}]')
+
+    good = []
+
+    for src in out:
+        try:
+            ast.parse(src)
+            good.append(src)
+        except SyntaxError:
+            pass
+
+    return tuple(good)
+
+
 def params(tier):
     if tier == 'quick':
         return {'examples': 200, 'wall': 80, 'case_timeout': 60, 'files': 120}
@@ -75,7 +121,7 @@ def enumerate_cases(tier, shard, nshards, seed):
 
         yield {'file': files[i]}
 
-    for j, src in enumerate(SYN + gen.SYN_PROGRAMS):
+    for j, src in enumerate(SYN + gen.SYN_PROGRAMS + comp_nest_programs()):
         if j % nshards == shard:
             yield {'src': src}
 
